@@ -77,3 +77,66 @@ Theorem pinned_model_fails_clause5 :
   let '(s', outs, oc) := step Z.add pinned s (PResponseTree (Some (to_marshal z_b)) (Some z_ro)) in
   check_step [] (Some (snap_of [9] s [] Fine)) (PResponseTree (Some (to_marshal z_b)) (Some z_ro)) (snap_of [9] s' outs oc) = [5].
 Proof. vm_compute. reflexivity. Qed.
+
+(* ---------- clause 5 of the checker IS [clause5_ok] ---------------------------------------------- *)
+
+Lemma in_clause : forall x k b, In x (clause k b) <-> x = k /\ b = false.
+Proof.
+  intros x k b. unfold clause. destruct b; cbn.
+  - split; [intros []|intros [_ H]; discriminate].
+  - split; [intros [<-|[]]; auto|intros [-> _]; auto].
+Qed.
+
+Lemma step_tail_6_7 : forall aw p o n x, In x (step_tail aw p o n) -> x = 6 \/ x = 7.
+Proof.
+  intros aw p o n x H. unfold step_tail in H.
+  destruct o as [t|t|tid|tid nid sendok|tid|tid ver|otm oro|tm pick|rid nf|ro]; try (destruct H; fail).
+  - destruct otm as [m|]; [destruct oro as [ro|]|].
+    + destruct (malformed m ro || (tm_tid m =? 0)); [apply in_clause in H as [-> _]; auto|].
+      destruct (is_requested _ || mem _ _); [apply in_clause in H as [-> _]; auto|destruct H].
+    + apply in_clause in H as [-> _]; auto.
+    + apply in_clause in H as [-> _]; auto.
+  - destruct (tm_children tm); [apply in_clause in H as [-> _]; auto|destruct H].
+  - apply in_app_iff in H as [H|H]; apply in_clause in H as [-> _]; auto.
+Qed.
+
+(* the checker reports clause 5 for a step exactly when the step is a peer's and
+   [clause5_ok] fails: the theorem about [clause5_ok] above is a theorem about [check_step] *)
+Theorem check_step_clause5 : forall aw p o n,
+  In 5 (check_step aw p o n) <-> is_peer o = true /\ clause5_ok p n = false.
+Proof.
+  intros aw p o n. unfold check_step, clause5_ok. destruct (is_peer o); cbn [negb].
+  - rewrite !in_app_iff, !in_clause. split.
+    + intros [[E _]|[[_ H]|[[E _]|H]]]; try discriminate; [auto|].
+      apply step_tail_6_7 in H as [E|E]; discriminate.
+    + intros [_ H]. right. left. auto.
+  - split; [intros []|intros [E _]; discriminate].
+Qed.
+
+Corollary repaired_model_never_reports_clause5 : forall fx U (s : zst) (o : zop) s' outs oc outs0 oc0 aw,
+  fix_n1 fx = true ->
+  step Z.add fx s o = (s', outs, oc) ->
+  ~ In 5 (check_step aw (Some (snap_of U s outs0 oc0)) o (snap_of U s' outs oc)).
+Proof.
+  intros fx U s o s' outs oc outs0 oc0 aw Hn Hst H. apply check_step_clause5 in H as [Hp Hc].
+  rewrite (repaired_model_never_replaces_checked fx U s o s' outs oc outs0 oc0 Hn Hp Hst) in Hc. discriminate.
+Qed.
+
+(* ---------- ... but the repaired model does NOT pass the whole checker ------------------------------ *)
+
+(* the snapshots of a model run, as the harness would take them *)
+Fixpoint model_snaps (U : list nat) (fx : fixes) (s : zst) (ops : list zop) : list snap :=
+  match ops with
+  | [] => []
+  | o :: r => let '(s', outs, oc) := step Z.add fx s o in snap_of U s' outs oc :: model_snaps U fx s' r
+  end.
+
+Definition z_late_roster_ops : list zop :=
+  [LMsg 9 555 true; PTreeMarshal (to_marshal z_t) 0; PResponseTree (Some (to_marshal z_t)) (Some z_ro);
+   Expire 9; PRoster z_ro].
+
+(* N3, the residue that repair N1 leaves: on the late-roster history the repaired model itself
+   is flagged by the checker, with clause 8 (a tree stored under an id that was absent) *)
+Theorem repaired_model_fails_clause8_on_late_roster :
+  check (CHist z_late_roster_ops (model_snaps [9] repaired init z_late_roster_ops)) = [8].
+Proof. vm_compute. reflexivity. Qed.
